@@ -154,7 +154,7 @@ impl Plan {
     let lookup: Option<u8> = match self.method_id_override {
       1 => Some(self.method),
       2 => Some(other),
-      3 => None,
+      3 | 4 => None,
       _ => match self.kid {
         0 | 1 | 2 => Some(self.method),
         _ => None,
@@ -343,6 +343,10 @@ fn build(rng: &mut Rng, p: &Plan, other: u8) -> Built {
     5 => {
       h.insert("kid".into(), json!("#"));
     }
+    6 => {
+      // the holder's own DID with the fragment of the foreign-DID method the document lists: names no method
+      h.insert("kid".into(), json!(format!("{}#kf", HOLDER)));
+    }
     _ => {}
   }
   match p.nonce_hdr {
@@ -382,6 +386,7 @@ fn build(rng: &mut Rng, p: &Plan, other: u8) -> Built {
     1 => vo = vo.method_id(DIDUrl::parse(Plan::method_id(p.method)).unwrap()),
     2 => vo = vo.method_id(DIDUrl::parse(Plan::method_id(other)).unwrap()),
     3 => vo = vo.method_id(DIDUrl::parse(format!("{}#nope", HOLDER)).unwrap()),
+    4 => vo = vo.method_id(DIDUrl::parse(format!("{}#kf", HOLDER)).unwrap()),
     _ => {}
   }
   let options = JwtPresentationValidationOptions::new()
@@ -394,8 +399,18 @@ fn build(rng: &mut Rng, p: &Plan, other: u8) -> Built {
 fn mutate_one(rng: &mut Rng, p: &mut Plan, which: u64) {
   match which {
     0 => p.sig = 1 + rng.below(3) as u8,
-    1 => p.kid = 3 + rng.below(3) as u8,
-    2 => p.method_id_override = 2 + rng.below(2) as u8,
+    1 => {
+      p.kid = 3 + rng.below(4) as u8;
+      if p.kid == 6 {
+        p.method = 2; // signed by the foreign method's key, named under the holder's DID
+      }
+    }
+    2 => {
+      p.method_id_override = 2 + rng.below(3) as u8;
+      if p.method_id_override == 4 {
+        p.method = 2;
+      }
+    }
     3 => p.scope = 1 + rng.below(4) as u8,
     4 => {
       p.nonce_hdr = rng.below(3) as u8;
